@@ -204,6 +204,33 @@ def entries_forward(ctx, R, rule):
                "return-callee-result", where=pat.where(t))
 
 
+IDENTITY_VIEWS = ("as_slice", "as_mut_slice", "as_ref", "as_mut", "deref", "deref_mut", "borrow", "borrow_mut", "clone", "to_vec", "to_owned", "as_ptr_range_not")
+
+
+def through_identity_views(v, r):
+    """The value behind a chain of views that hand back the same elements: `x.as_slice()`, `&x[..]`, `x.as_ref()`, `&*x`, `x.clone()`."""
+    for _ in range(6):
+        if r.kind != "call":
+            break
+        t = v.call_term(r)
+        if t is None or not t.get("args"):
+            break
+        nm = (t.get("callee") or {}).get("name")
+        if nm in IDENTITY_VIEWS and len(t["args"]) == 1:
+            r = v.root(t["args"][0])
+            continue
+        if nm in ("index", "index_mut") and len(t["args"]) == 2:
+            a1 = t["args"][1]
+            full = a1.get("k") == "const" and "RangeFull" in str(a1.get("ty") or a1.get("disp") or "")
+            if a1.get("k") in ("copy", "move") and not a1["place"]["p"]:
+                full = "RangeFull" in str(v.body.local_ty(a1["place"]["l"]))
+            if full:
+                r = v.root(t["args"][0])
+                continue
+        break
+    return r
+
+
 def entry_forwards_inputs(ctx, R, rule):
     """The x-space entry hands the caller's point (and every other input) to the sampling routine as it received it: each argument of
     that call is one of the entry's own parameters or a field of `self`, not a value computed in between (a clamped / re-collected
@@ -222,7 +249,7 @@ def entry_forwards_inputs(ctx, R, rule):
     for i, a in enumerate(t["args"]):
         if a.get("k") == "const":
             continue
-        r = v.root(a)
+        r = through_identity_views(v, v.root(a))
         if r.kind != "arg":
             bad.append("argument %d is %r" % (i, r))
     ctx.ob(rule, "%s passes its inputs (point, edge data, settings, table) to the sampling routine unmodified" % norm_path(e1.path), not bad, e1.path,
@@ -243,7 +270,7 @@ def builder_forwards_graph(ctx, R, rule, from_graph):
     if len(sites) != 1:
         return ctx.lost(rule, "single call of the graph constructor in %s (found %d)" % (bs.path, len(sites)), bs.path)
     bi, t = sites[0]
-    r = v.root(t["args"][0])
+    r = through_identity_views(v, v.root(t["args"][0]))
     ok_arg = r.kind == "arg" and not r.path
     writes = []
     if ok_arg:
